@@ -630,7 +630,7 @@ def families(ctx):
 def _check_rows(parts, pdf, what):
     got = pd.concat(parts) if parts else pdf.iloc[:0]
     if not e2e.same(got, pdf):
-        return (f"{what}: concatenated output differs from the input rows: expected {len(pdf)} rows "
+        return (f"[rows] {what}: concatenated output differs from the input rows: expected {len(pdf)} rows "
                 f"{pdf['pay'].tolist()[:30]}, got {len(got)} rows {got['pay'].tolist()[:30]}")
     return None
 
@@ -640,11 +640,11 @@ def _check_divisions(parts, divs, what):
         return None
     m = len(parts)
     if len(divs) != m + 1:
-        return f"{what}: {m} partitions computed but {len(divs)} division entries reported"
+        return f"[count] {what}: {m} partitions computed but {len(divs)} division entries reported"
     for j, p in enumerate(parts):
         for x in p.index:
             if not (divs[j] <= x and (x < divs[j + 1] or (j == m - 1 and x == divs[j + 1]))):
-                return f"{what}: partition {j} holds index {x!r} outside [{divs[j]!r}, {divs[j+1]!r}{']' if j == m-1 else ')'}"
+                return f"[divisions] {what}: partition {j} holds index {x!r} outside [{divs[j]!r}, {divs[j+1]!r}{']' if j == m-1 else ')'}"
     return None
 
 
@@ -658,7 +658,7 @@ def _check_collection(coll, pdf, what):
     if msg:
         return msg
     if len(parts) != coll.npartitions:
-        return f"{what}: reports npartitions={coll.npartitions} (divisions {coll.divisions!r}) but {len(parts)} partitions are computed"
+        return f"[count] {what}: reports npartitions={coll.npartitions} (divisions {coll.divisions!r}) but {len(parts)} partitions are computed"
     low = coll.expr.optimize()
     return _check_divisions(parts, list(low.divisions), what)
 
@@ -683,8 +683,8 @@ def _divisions_case(case):
         if res[1] == "ValueError" and not (covered and valid_b):
             return None  # rejected, as required
         if res[1] == "ValueError":
-            return f"{what}: a satisfiable request was rejected: {res[2]}"
-        return f"{what}: raised {res[1]}: {res[2]}"
+            return f"[spurious-reject] {what}: a satisfiable request was rejected: {res[2]}"
+        return f"[raised:{res[1]}] {what}: raised {res[1]}: {res[2]}"
     if res is None and not covered:
         return None  # e.g. identical divisions: returned unchanged
     return res
@@ -712,7 +712,7 @@ def _npartitions_case(case):
     r = e2e.run_or_err(lambda: df.repartition(npartitions=m))
     res = ("raised", r[1], r[2]) if r[0] == "err" else _check_collection(r[1], pdf, what)
     if isinstance(res, tuple):
-        return f"{what}: raised {res[1]}: {res[2]}"
+        return f"[raised:{res[1]}] {what}: raised {res[1]}: {res[2]}"
     return res
 
 
@@ -722,7 +722,7 @@ def _size_case(case):
     r = e2e.run_or_err(lambda: df.repartition(partition_size=case["size"]))
     res = ("raised", r[1], r[2]) if r[0] == "err" else _check_collection(r[1], pdf, what)
     if isinstance(res, tuple):
-        return f"{what}: raised {res[1]}: {res[2]}"
+        return f"[raised:{res[1]}] {what}: raised {res[1]}: {res[2]}"
     return res
 
 
@@ -739,7 +739,7 @@ def _freq_case(case):
     r = e2e.run_or_err(lambda: df.repartition(freq=case["freq"]))
     res = ("raised", r[1], r[2]) if r[0] == "err" else _check_collection(r[1], pdf, what)
     if isinstance(res, tuple):
-        return f"{what}: raised {res[1]}: {res[2]}"
+        return f"[raised:{res[1]}] {what}: raised {res[1]}: {res[2]}"
     return res
 
 
@@ -748,18 +748,15 @@ def _unknown_case(case):
     df, pdf = _np_frame({"src": "cuts", "n": 8, "cuts": case["cuts"], "known": False, "dup": 2})
     r = e2e.run_or_err(lambda: e2e.compute_partitions(df.repartition(divisions=case["b"], force=case["force"])))
     if r[0] == "err":
-        return None if r[1] == "ValueError" else f"unknown divisions: raised {r[1]}: {r[2]}"
+        return None if r[1] == "ValueError" else f"[raised:{r[1]}] unknown divisions: raised {r[1]}: {r[2]}"
     got = pd.concat(r[1])
-    return (f"repartition(divisions={case['b']}) on unknown divisions did not raise and returned "
+    return (f"[not-rejected] repartition(divisions={case['b']}) on unknown divisions did not raise and returned "
             f"{len(got)} of {len(pdf)} rows")
 
 
 def _align_case(case):
     """binary operation between frames of different divisions (OpAlignPartitions -> RepartitionDivisions force=True)"""
-    x, xp = div_frame(case["a"])
-    y, yp = div_frame(case["a2"])
-    exp = xp["pay"] + yp["pay"] if False else None  # duplicates in the index make pandas' own alignment a product
-    # use unique-index series instead: one row per integer
+    # unique-index series (one row per integer): pandas aligns duplicated labels as a product
     import dask_expr as dx
 
     def ser(a):
@@ -773,10 +770,10 @@ def _align_case(case):
     exp = xs + ys
     r = e2e.run_or_err(lambda: (x + y).compute())
     if r[0] == "err":
-        return f"align {case['a']} + {case['a2']}: raised {r[1]}: {r[2]}"
+        return f"[raised:{r[1]}] align {case['a']} + {case['a2']}: raised {r[1]}: {r[2]}"
     got = r[1]
     if not e2e.same(got.sort_index(), exp.sort_index()):
-        return (f"series with divisions {case['a']} + series with divisions {case['a2']}: expected "
+        return (f"[rows] series with divisions {case['a']} + series with divisions {case['a2']}: expected "
                 f"{dict(exp.dropna())}, got {dict(got.dropna())} (non-null entries)")
     return None
 
@@ -795,18 +792,31 @@ def run_case(case):
     return _RUNNERS[case["kind"]](case)
 
 
-def sig_of(case):
+def _tag(msg):
+    if msg and msg.startswith("["):
+        return msg[1 : msg.index("]")]
+    return "other"
+
+
+def sig_of(case, msg=None):
+    """Decidable signature of a failing case: the call shape plus what went wrong (rows lost / wrong partition count /
+    index outside the reported divisions / exception)."""
     k = case["kind"]
+    sig = {"kind": k}
+    if msg is not None:
+        sig["what"] = _tag(msg)
     if k == "divisions":
         a = case["a"]
-        return {"kind": "divisions", "dup_last": len(a) >= 2 and a[-1] == a[-2], "force": bool(case["force"])}
-    if k == "align":
+        sig.update({"dup_last": len(a) >= 2 and a[-1] == a[-2], "force": bool(case["force"])})
+    elif k == "align":
         a, a2 = case["a"], case["a2"]
-        return {"kind": "align", "dup_last": (a[-1] == a[-2]) or (a2[-1] == a2[-2])}
-    if k == "npartitions":
-        return {"kind": "npartitions", "direction": "up" if case.get("up") else "down", "src": case["src"],
-                "index": case.get("index", "int")}
-    return {"kind": k}
+        # MaybeAlignPartitions._lower skips the repartition when the aligned divisions have two entries: all operands
+        # single-partition ((min, max) is reported) or the union of the division values has two elements
+        skips = (len(a) == 2 and len(a2) == 2) or len(set(a) | set(a2)) <= 2
+        sig.update({"lower_skips_repartition": skips})
+    elif k == "npartitions":
+        sig.update({"direction": "up" if case.get("up") else "down"})
+    return sig
 
 
 def _realistic(a):
@@ -911,7 +921,7 @@ def support(ctx, broken):
         if len(sup.samples) < 4 and case["kind"] not in [s["kind"] for s in sup.samples]:
             sup.samples.append(case)
         if msg:
-            sig = sig_of(case)
+            sig = sig_of(case, msg)
             k = repr(sorted(sig.items()))
             per_sig[k] = per_sig.get(k, 0) + 1
             if per_sig[k] <= 3:  # keep a few witnesses per signature, count the rest
@@ -923,4 +933,4 @@ def support(ctx, broken):
 
 def replay(case):
     msg = run_case(case)
-    return Failure(sig=sig_of(case), case=case, detail=msg) if msg else None
+    return Failure(sig=sig_of(case, msg), case=case, detail=msg) if msg else None
